@@ -2,5 +2,7 @@ SPECIFICATION Spec
 CONSTANTS Kind = "num"
           FullLen = 0
           RepLen = 0
+          RepPrefixes = {}
+          RepQuotes = {}
 INVARIANT Emit
 CHECK_DEADLOCK FALSE
